@@ -102,15 +102,23 @@ func (br *xmpReader) readAttribute(tag *Tag) (attr Attribute, err error) {
 	attr.parent = tag.self
 
 	// Attribute Name
-	if buf, err = br.Peek(maxTagHeaderSize); err != nil {
-		err = errors.Wrap(err, "Attr")
-		return
-	}
-
 	var d int
-	if attr.self, d, err = parseAttrName(buf); err != nil {
-		err = errors.Wrap(ErrNegativeRead, "Attr (name)")
-		return
+	s := maxTagHeaderSize
+	for {
+		if buf, err = br.Peek(s); err != nil {
+			err = errors.Wrap(err, "Attr")
+			return
+		}
+		if attr.self, d, err = parseAttrName(buf); err == nil {
+			break
+		}
+		if len(buf) < s {
+			// the input ends inside the attribute name
+			err = errors.Wrap(ErrNegativeRead, "Attr (name)")
+			return
+		}
+		// Look further ahead (large white spaces between attributes).
+		s += maxTagHeaderSize
 	}
 	if _, err = br.Discard(d); err != nil {
 		err = errors.Wrap(err, "Attr (discard)")
@@ -126,7 +134,6 @@ func (br *xmpReader) readAttribute(tag *Tag) (attr Attribute, err error) {
 // readAttrValue reada an Attributes value from the Tag.
 // Needs improvement for performance
 func (br *xmpReader) readAttrValue(tag *Tag) (buf []byte, err error) {
-	d, i := 0, 2
 	s := maxTagValueSize / 2
 	for {
 		if buf, err = br.Peek(s); err != nil {
@@ -134,29 +141,47 @@ func (br *xmpReader) readAttrValue(tag *Tag) (buf []byte, err error) {
 			return
 		}
 
-		if buf[0] == '=' && (buf[1] == '"' || buf[1] == '\'') {
-			delim := buf[1]
-			// The closing quote and the two bytes after it ("/>") must be inside
-			// the window, unless the input ends there.
-			if b := bytes.IndexByte(buf[i:], delim); b >= 0 && (i+b+2 < len(buf) || len(buf) < s) {
-				i += b
-				d = i + 1
-				if i+1 < len(buf) && buf[i+1] == '>' {
-					d++
-					br.a = false
-				} else if i+2 < len(buf) && buf[i+1] == '/' && buf[i+2] == '>' {
-					d += 2
-					tag.t = soloTag
-					br.a = false
+		// White space is allowed on both sides of the '='.
+		o := skipSpace(buf, 0)
+		if o < len(buf) && buf[o] == '=' {
+			o = skipSpace(buf, o+1)
+		} else {
+			o = len(buf)
+		}
+		if o < len(buf) && (buf[o] == '"' || buf[o] == '\'') {
+			delim := buf[o]
+			// The closing quote, the white space after it and the two bytes after
+			// that ("/>") must be inside the window, unless the input ends there.
+			if b := bytes.IndexByte(buf[o+1:], delim); b >= 0 {
+				i := o + 1 + b
+				if e := skipSpace(buf, i+1); e+1 < len(buf) || len(buf) < s {
+					d := i + 1
+					if e < len(buf) && buf[e] == '>' {
+						d = e + 1
+						br.a = false
+					} else if e+1 < len(buf) && buf[e] == '/' && buf[e+1] == '>' {
+						d = e + 2
+						tag.t = soloTag
+						br.a = false
+					}
+					if _, err = br.Discard(d); err != nil {
+						err = errors.Wrap(err, "Attr Value (discard)")
+					}
+					return buf[o+1 : i], err
 				}
-				if _, err = br.Discard(d); err != nil {
-					err = errors.Wrap(err, "Attr Value (discard)")
-				}
-				return buf[2:i], err
 			}
 		}
 		s += maxTagValueSize
 	}
+}
+
+// skipSpace returns the index of the first byte of buf at or after i that is
+// not white space, or len(buf).
+func skipSpace(buf []byte, i int) int {
+	for i < len(buf) && isSpace(buf[i]) {
+		i++
+	}
+	return i
 }
 
 // readTagHeader reads an xmp tag's header and returns the tag.
@@ -167,7 +192,7 @@ func (br *xmpReader) readTagHeader(parent Tag) (tag Tag, err error) {
 	s := maxTagHeaderSize
 	// Read Tag Header
 	var buf []byte
-	var i, d int
+	var i, d, e int
 	for {
 		if buf, err = br.Peek(s); err != nil {
 			err = errors.Wrap(err, "Tag Header")
@@ -195,9 +220,12 @@ func (br *xmpReader) readTagHeader(parent Tag) (tag Tag, err error) {
 				tag.t = startTag
 			}
 			name := buf[n:]
-			if tag.self, d, err = parseTagName(name); err == nil && d >= 0 && d < len(name) && (d+1 < len(name) || len(buf) < s) {
-				buf, i = name, n
-				break
+			if tag.self, d, err = parseTagName(name); err == nil && d >= 0 && d < len(name) {
+				// White space is allowed between the name and the end of the tag.
+				if e = skipSpace(name, d); e+1 < len(name) || len(buf) < s {
+					buf, i = name, n
+					break
+				}
 			}
 		}
 		if len(buf) < s && i < len(buf) {
@@ -207,15 +235,18 @@ func (br *xmpReader) readTagHeader(parent Tag) (tag Tag, err error) {
 		}
 		s += maxTagHeaderSize
 	}
-	if buf[d] == '>' {
+	// The white space after the name is followed by attributes or by the end of the tag.
+	a := e > d
+	d = e
+	if d < len(buf) && buf[d] == '>' {
 		br.a = false // No Attributes
 		d++
-	} else if isSpace(buf[d]) { // Attributes
-		br.a = true
-	} else if buf[d] == '/' && d+1 < len(buf) && buf[d+1] == '>' { // SoloTag
+	} else if d+1 < len(buf) && buf[d] == '/' && buf[d+1] == '>' { // SoloTag
 		br.a = false // No Attributes
 		tag.t = soloTag
 		d += 2
+	} else if a { // Attributes
+		br.a = true
 	}
 	if _, err = br.Discard(d + i); err != nil {
 		err = errors.Wrap(err, "Tag Header (discard)")
